@@ -297,7 +297,11 @@ func doRuns(e *Engine, job *Job, out *WorkerOut, start time.Time) {
 		if job.BudgetS > 0 && time.Now().After(deadline) {
 			break
 		}
-		seed := Mix(job.BaseSeed, job.Prop, uint64(i))
+		seedProp := job.Prop
+		if sp := job.Opt["seedprop"]; sp != "" {
+			seedProp = sp // (debugging aid of bin/probe: the seeds of another property's check)
+		}
+		seed := Mix(job.BaseSeed, seedProp, uint64(i))
 		res := execute(e, job.Prop, job.Tier, seed, NewGenTape(seed), job.Opt)
 		wmu.Lock()
 		handle(i, seed, res, job.Opt)
